@@ -236,14 +236,15 @@ def rule_block(run, F, cfg):
            f"(expected Redirect+RedirectRule / Redirect only)", site=p.loc(0), config=cfg)
     tn, _ = R.table_new(F)
     bad = []
+    # ($important included: an important redirect-rule still only supplies a replacement)
     for v in R.valuations({"is_badfilter": 0, "bad_id": 0, "exists": 0, "is_redirect": 1, "is_csp": 0,
-                           "is_removeparam": 0, "is_generic_hide": 0, "is_exception": 0, "is_important": 0}):
+                           "is_removeparam": 0, "is_generic_hide": 0, "is_exception": 0}):
         d = tn.eval(v) or frozenset()
         blocking = bool(d & {"filters", "tagged_filters_all", "importants"})
         if blocking != bool(v["also_block_redirect"]) or "redirects" not in d:
             bad.append((R.fmt_val(v), sorted(d)))
     run.ob("C13.4.redirect-vs-redirect-rule", "routing", not bad,
-           "a (non-important, non-exception) redirect rule is stored in `redirects` and additionally in "
+           "a (non-exception) redirect rule, important or not, is stored in `redirects` and additionally in "
            f"a blocking list iff ALSO_BLOCK_REDIRECT is set; mismatches: {bad[:2]}", config=cfg)
 
 
